@@ -49,6 +49,20 @@ def build(spec):
             m.add_readout(n, _fn(c["args"], c["expr"], f"ro_{n}"), args=list(c["args"]))
         elif k == "data":
             m.add_data(n, pd.Series(c["values"], dtype=float))
+        elif k == "surrogate" and c.get("poly"):
+            from numpy.polynomial.polynomial import Polynomial
+
+            from mxlpy.surrogates import poly
+
+            m.add_surrogate(
+                n,
+                poly.Surrogate(
+                    model=Polynomial(list(c["poly"])),
+                    args=list(c["args"]),
+                    outputs=list(c["outputs"]),
+                    stoichiometries={o: {v: _coef(cf, o, v) for v, cf in st.items()} for o, st in c["stoich"].items()},
+                ),
+            )
         elif k == "surrogate":
             fns_ = [_fn(c["args"], e, f"s_{n}_{i}") for i, e in enumerate(c["exprs"])]
 
